@@ -75,19 +75,28 @@ class JobTimeout(BaseException):
 class PaddedStdin(io.TextIOBase):
     """stdin holding the queued inputs; after them either EOF (pad None) or `pad` forever."""
 
-    def __init__(self, inputs, pad):
+    def __init__(self, inputs, pad, limit=None):
         self.items = list(inputs)
         self.pad = pad
+        self.limit = limit          # the sandbox's MAXIMUM_INPUTS (only with pad: the sandbox's own path)
+        self.reads = 0
+        self.last = None
 
     def readable(self):
         return True
 
     def readline(self, *a):
+        self.reads += 1
         if self.items:
-            return self.items.pop(0) + "\n"
-        if self.pad is None:
+            self.last = self.items.pop(0)
+        elif self.pad is None:
+            self.last = None
             return ""
-        return self.pad + "\n"
+        else:
+            self.last = self.pad
+        if self.limit is not None and self.limit <= self.reads:
+            raise OSError("Asked for user input too many times")
+        return self.last + "\n"
 
     def read(self, *a):
         out = "".join(x + "\n" for x in self.items)
@@ -111,9 +120,9 @@ def innermost_line(exc, filename):
 
 
 class Tracer:
-    def __init__(self, inputs, pad):
+    def __init__(self, inputs, pad, limit=None):
         self.out = Recorder()
-        self.stdin = PaddedStdin(inputs, pad)
+        self.stdin = PaddedStdin(inputs, pad, limit)
         self.events = []
         self.mark = 0
 
@@ -131,6 +140,10 @@ class Tracer:
         except EOFError:
             self.mark = len(self.out.getvalue())      # the prompt was written by input() itself
             self.events.append(["inp", str(args[0]) if args else None, None])
+            raise
+        except OSError:
+            self.mark = len(self.out.getvalue())
+            self.events.append(["inp", str(args[0]) if args else None, ["too-many", self.stdin.last]])
             raise
         self.mark = len(self.out.getvalue())
         self.events.append(["inp", str(args[0]) if args else None, reply])
@@ -163,7 +176,7 @@ def run_job(job):
     saved_main = sys.modules["__main__"]
     sys.modules["__main__"] = mod
     res = {"outcome": None, "calls": []}
-    tr = Tracer(job.get("inputs", []), job.get("pad"))
+    tr = Tracer(job.get("inputs", []), job.get("pad"), job.get("limit"))
     try:
         with tr:
             try:
